@@ -10,9 +10,9 @@ template <class L> Z applyOp(LabeledDirectedGraph<L> &g, const std::string &op) 
         return guard([&]() -> Z {
             if (k == "A") { is >> i >> j >> l >> f; g.addEdge(i, j, Lab<L>::mk(l), (bool)f); }
             else if (k == "AR") { is >> i >> j >> l >> f; g.addReciprocalEdge(i, j, Lab<L>::mk(l), (bool)f); }
-            else if (k == "R") { is >> i >> j; g.removeEdge(i, j); }
+            else if (k == "R") { is >> i >> j; removeEdgeAliased(g, i, j); }
             else if (k == "SL") g.removeSelfLoops();
-            else if (k == "V") { is >> i; g.removeVertexFromEdgeList(i); }
+            else if (k == "V") { is >> i; removeVertexAliased(g, i); }
             else if (k == "CL") g.clearEdges();
             else if (k == "RZ") { is >> i; g.resize(i); }
             else if (k == "SLB") { is >> i >> j >> l >> f; g.setEdgeLabel(i, j, Lab<L>::mk(l), (bool)f); }
@@ -24,9 +24,9 @@ template <class L> Z applyOp(LabeledUndirectedGraph<L> &g, const std::string &op
         std::istringstream is(op); std::string k; is >> k; long i = 0, j = 0, l = 0, f = 0;
         return guard([&]() -> Z {
             if (k == "A") { is >> i >> j >> l >> f; g.addEdge(i, j, Lab<L>::mk(l), (bool)f); }
-            else if (k == "R") { is >> i >> j; g.removeEdge(i, j); }
+            else if (k == "R") { is >> i >> j; removeEdgeAliased(g, i, j); }
             else if (k == "SL") g.removeSelfLoops();
-            else if (k == "V") { is >> i; g.removeVertexFromEdgeList(i); }
+            else if (k == "V") { is >> i; removeVertexAliased(g, i); }
             else if (k == "CL") g.clearEdges();
             else if (k == "RZ") { is >> i; g.resize(i); }
             else if (k == "SLB") { is >> i >> j >> l >> f; g.setEdgeLabel(i, j, Lab<L>::mk(l), (bool)f); }
